@@ -7,6 +7,7 @@ CONSTANTS
   PDUs = {1, 2}
   N = 3
   Depth = 6
+  Faults = {"none"}
   Export = FALSE
 CONSTRAINT Bounded
 VIEW View
